@@ -33,7 +33,7 @@ def mkdf(columns, rows):
     return pd.DataFrame([list(r) for r in rows], columns=list(columns))
 
 
-def prefix_ok(before, after, what):
+def prefix_ok(before, after, what, allow_dup=False):
     """before must be an exact prefix of after (columns, values, row order, index)"""
     fails = []
     nb = before.shape[1]
@@ -47,7 +47,7 @@ def prefix_ok(before, after, what):
     if list(after.index) != list(before.index):
         fails.append(({'kind': 'index_changed', 'step': what}, f'{what}: row index changed'))
     new = after.iloc[:, nb:]
-    if len(set(after.columns)) != len(after.columns):
+    if not allow_dup and len(set(after.columns)) != len(after.columns):
         dup = [c for c in set(after.columns) if list(after.columns).count(c) > 1]
         fails.append(({'kind': 'duplicate_columns', 'step': what}, f'{what}: duplicate column names {dup[:3]}'))
     for c in new.columns:
@@ -169,6 +169,56 @@ def judge_constructor(name, columns, rows):
     elif name == 'noise':
         fails += check_noise(before, out)
     return fails, out.shape[1] > before.shape[1]
+
+
+COLLIDE_ROWS = [[['a', 'b'], ['a', 'b']], [['a', 'b'], ['b', 'a']], [['a,b-c', 'a'], ['ab', 'a,b-c']], [['a', 'a'], ['', 'b']], [['a', 'b'], ['a', 'a'], ['b', 'a']]]
+
+
+def judge_collision(name, rows, derived, pos):
+    """the frame has an INPUT column whose name equals a name the constructor derives (e.g. 'x AND y' next to x and y): the
+    original columns - addressed by position, since the result may then carry the name twice - must come back unchanged and the
+    derived columns must still be appended"""
+    cols = ['x', 'y', 'label']
+    cols2 = cols[:pos] + [derived] + cols[pos:]
+    rows2 = [list(r[:pos]) + [f'q{i % 2}'] + list(r[pos:]) for i, r in enumerate(rows)]
+    ok, res = safe(run_constructor, name, cols2, rows2)
+    if not ok:
+        return [({'kind': 'exception', 'step': name.split(':')[0], 'collide': True}, f'{name} with an input column named {derived!r}: raised {res}')]
+    before, df_in, out = res
+    fails = [(dict(sig, collide=True), f'input column named like a derived one ({derived!r}): ' + msg) for sig, msg in prefix_ok(before, out, name, allow_dup=True)]
+    if not df_in.equals(before):
+        fails.append(({'kind': 'input_mutated', 'step': name.split(':')[0], 'collide': True}, f'{name} with an input column named {derived!r}: the input frame was modified in place'))
+    if list(out.columns).count(derived) < 2:
+        fails.append(({'kind': 'derived_not_appended', 'step': name.split(':')[0], 'collide': True}, f'{name}: with an input column named {derived!r} the derived column of that name was not appended (columns {list(out.columns)})'))
+    else:
+        # the appended column must hold what the constructor derives without the extra column
+        ok0, res0 = safe(run_constructor, name, cols, [list(r) for r in rows])
+        if ok0 and derived in res0[2].columns and not name == 'noise':
+            want = list(res0[2][derived])
+            got = list(out.iloc[:, [i for i, c in enumerate(out.columns) if c == derived][-1]])
+            if want != got:
+                fails.append(({'kind': 'derived_values', 'step': name.split(':')[0], 'collide': True}, f'{name}: derived column {derived!r} holds {got} next to an input column of the same name, {want} without it'))
+    return fails
+
+
+def _collide(_):
+    st = Stats()
+    for base in COLLIDE_ROWS:
+        rows = [list(r) + [str(i % 2)] for i, r in enumerate(base)]
+        for name in CONSTRUCTORS:
+            ok, res = safe(run_constructor, name, ['x', 'y', 'label'], [list(r) for r in rows])
+            if not ok:
+                continue
+            derived = [c for c in res[2].columns[3:]]
+            for d in derived:
+                for pos in (0, 2):
+                    st.count('evaluations')
+                    st.count('collision_frames')
+                    for sig, msg in judge_collision(name, rows, d, pos):
+                        st.violation({'kind': 'collide', 'constructor': name, 'rows': rows, 'derived': d, 'pos': pos}, msg, sig)
+    if st.n['collision_frames'] < 50:
+        raise HarnessError('vacuous collision family')
+    return st
 
 
 CELLS3 = ['', 'a', 'a,b-c', 'ab', 'a ']     # reduced alphabet for the 3-row frames of the thorough tier
@@ -429,7 +479,7 @@ def _seqdiff(fl):
 
 def _dispatch(item):
     k, job = item
-    return {'alone': _alone, 'tr': _transform_alone, 'batch': _batch, 'seqdiff': _seqdiff, 'enrich': _enrich_sets, 'formula_text': _formula_text}[k](job)
+    return {'alone': _alone, 'tr': _transform_alone, 'batch': _batch, 'seqdiff': _seqdiff, 'enrich': _enrich_sets, 'formula_text': _formula_text, 'collide': _collide}[k](job)
 
 
 def run(ctx):
@@ -446,6 +496,7 @@ def run(ctx):
         jobs += [('batch', (1, lo, hi, ('MI-numba-3mr',))) for lo, hi in shards(18, 6)]
     jobs.append(('enrich', None))
     jobs.append(('formula_text', None))
+    jobs.append(('collide', None))
     jobs += [('seqdiff', fl) for fl in (('transformers',), ('multivalue',), ('subfeatures',), ('interaction',), ('noise',), tuple(FLAGS))]
     for st in pmap(_dispatch, jobs):
         ctx.stats.merge(st)
@@ -461,6 +512,8 @@ def eval_case(case):
         return [v['what'] for v in _formula_text(None).violations]
     if case['kind'] == 'enrich_sets':
         return [v['what'] for v in _enrich_sets(None).violations]
+    if case['kind'] == 'collide':
+        return [m for _, m in judge_collision(case['constructor'], case['rows'], case['derived'], case['pos'])]
     if case['kind'] == 'alone':
         fails, _ = judge_constructor(case['constructor'], case['columns'], case['rows'])
     else:
